@@ -178,12 +178,16 @@ func (h *c17Hist) neutralise(feat string) *c17Hist {
 
 // ---------------------------------------------------------------- generator
 
-var c17NeutralPaths = []string{"a.txt", "data1", "out.log", "sub/f.txt", "notes", "b-2.cfg", "sub/deep.dat", "A_B.TXT"}
+var c17NeutralPaths = []string{"a.txt", "data1", "out.log", "sub/f.txt", "notes", "b-2.cfg", "sub/deep.dat", "A_B.TXT",
+	"a_rather_long_file_name_that_goes_on_and_on_for_more_than_sixty_four_bytes.txt"}
 var c17ExtPaths = []string{"sp ace.txt", " lead", "trail ", "two  blanks", "-dash", "--", "-n", "st*r", "q?m", "br[a]ck", "a*", "semi;colon", "amp&er", "pipe|p", "lt<gt>",
 	"par(en)", "hash#", "#hash", "~tilde", "quo'te", "dq\"uote", "$dollar", "$HOME", "back\\slash", "tick`t", "tab\there", "sub/sp ace", "excl!", "br{a,b}ce", "eq=ual", "per%cent", "$(id)", "new\nline"}
 var c17NeutralContents = []string{"Hello World", "Hello Moon", "abc", "42", "line one", "x", "The quick brown fox", "key=value", "a,b,c", "UPPER lower 123", "dots.and-dashes_ok", "path/like/value",
 	// words that end or start something in a shell script when they stand alone on a line
-	"EOF", "END", "EOT", "done", "fi", "exit"}
+	"EOF", "END", "EOT", "done", "fi", "exit",
+	// longer than 64 bytes (a threshold a literal pool or a line wrapper might use)
+	"The quick brown fox jumps over the lazy dog and keeps on running until the end of the line 0123456789",
+	"configuration value that is rather long, 70 bytes or so, nothing special otherwise"}
 var c17ExtContents = []string{"", "", "a\n", "two lines\nend\n", "\n", "one \ntwo", "x\t\ny", "a  \n  b", "end \n", " \n ", " lead", "trail ", "two  blanks", "   ", "tab\there", "\tlt", "a\nb", "a\n\nb", "*", "a*", "?", "[a]", "* *", ";", "a;b", "&", "a&&b", "|", "a|b", "<", ">", "a>b", "(", ")", "(x)",
 	"#", "# not a comment", "~", "~root", "'", "it's", "\"", "say \"hi\"", "$", "$HOME", "${PATH}", "$(id)", "`id`", "`", "\\", "a\\nb", "\\\\", "C:\\dir", "-n", "-e", "-E", "-neE", "-x", "--", "- n", "-n x",
 	"!", "!!", "{a,b}", "%s", "%d%%", "\\t", "$1", "$?", "a=b",
@@ -231,8 +235,21 @@ func c17Gen(rng *gen.Rng, population string) *c17Hist {
 			paths = append(paths, sib)
 		}
 	}
+	usedContents := []string{}
 	largeUsed := !rng.Chance(5) // one history in twenty may contain one large value (each costs seconds)
+	var content0 func() string
 	content := func() string {
+		// the very same text again (a pool of literals, a memo keyed by text …)
+		if len(usedContents) > 0 && rng.Chance(18) {
+			return usedContents[rng.Intn(len(usedContents))]
+		}
+		c := content0()
+		if len(c) < 4096 {
+			usedContents = append(usedContents, c)
+		}
+		return c
+	}
+	content0 = func() string {
 		if extC && rng.Chance(4) {
 			return "" // the empty string is the boundary value of every quoting and argument-passing scheme
 		}
@@ -262,7 +279,7 @@ func c17Gen(rng *gen.Rng, population string) *c17Hist {
 		return c
 	}
 	origin := func(s string) string {
-		return rng.Pick([]string{"literal", "literal", "var", "concat", "runtime"})
+		return rng.Pick([]string{"literal", "literal", "var", "concat", "runtime", "call"})
 	}
 	// model while generating, so that reads only target existing files
 	files := map[string]bool{}
@@ -307,7 +324,7 @@ func c17Gen(rng *gen.Rng, population string) *c17Hist {
 			burst--
 			p = burstPath
 		}
-		render := rng.Pick([]string{"top", "direct", "direct", "direct", "funcparam", "funcglobal", "funcdirect", "nested", "nested", "if", "ifdirect", "for", "fordirect", "shared", "shared", "unused"})
+		render := rng.Pick([]string{"top", "direct", "direct", "direct", "funcparam", "funcglobal", "funcdirect", "nested", "nested", "if", "ifdirect", "for", "fordirect", "shared", "shared", "unused", "elsedirect"})
 		if inBurst {
 			render = rng.Pick([]string{"direct", "direct", "top"})
 		}
@@ -584,9 +601,31 @@ func (h *c17Hist) render(seed uint64) []*c17Segment {
 	nameMap := map[string]string{}
 	usesShared := false
 	const sharedDefs = "func shw(shp string, shs string, sha bool) {\nwrite(shp, shs, sha)\n}\nfunc shw2(shp string, shs string) {\nwrite(shp, shs)\n}\nfunc shr(shp string) string {\nshx := read(shp)\nreturn shx\n}\nfunc she(shp string) bool {\nreturn exists(shp)\n}\n"
+	// 40 % of the histories define every self-contained function at the very top of the program
+	// and call it where the operation happens: definition order is not execution order
+	hoist := rng.Chance(40)
+	hoistOK := false // the operation being rendered refers to no top-level variable
+	mark := func(def string) string {
+		if hoistOK {
+			return "\x01" + def + "\x02"
+		}
+		return def
+	}
 	flush := func() {
 		fmt.Fprintf(&sb, "print(\"<<END>>\")\n")
-		cur.Program = sb.String()
+		prog := sb.String()
+		if strings.Contains(prog, "\x01") {
+			if hoist {
+				var defs strings.Builder
+				for _, m := range hoistRe.FindAllStringSubmatch(prog, -1) {
+					defs.WriteString(m[1])
+				}
+				prog = defs.String() + hoistRe.ReplaceAllString(prog, "")
+			} else {
+				prog = hoistRe.ReplaceAllString(prog, "$1")
+			}
+		}
+		cur.Program = prog
 		if advNames {
 			cur.Program = renameIdentifiers(cur.Program, nameMap, theme, rng)
 		}
@@ -616,6 +655,11 @@ func (h *c17Hist) render(seed uint64) []*c17Segment {
 				return tshLit(rng, val[:cut]) + " + " + tshLit(rng, val[cut:])
 			}
 			return tshLit(rng, val)
+		case "call":
+			// the value is the result of a function that is called here and nowhere else
+			name := fmt.Sprintf("%sk%d", role, id)
+			fmt.Fprintf(pre, "\x01func %s() string {\nreturn %s\n}\n\x02", name, tshLit(rng, val))
+			return name + "()"
 		case "runtime":
 			seedN++
 			name := fmt.Sprintf("seed_%d.in", seedN)
@@ -637,9 +681,12 @@ func (h *c17Hist) render(seed uint64) []*c17Segment {
 			}
 			switch render {
 			case "funcdirect":
-				return fmt.Sprintf("func fn%d() {\n%s}\nfn%d()\n", id, body, id)
+				return mark(fmt.Sprintf("func fn%d() {\n%s}\n", id, body)) + fmt.Sprintf("fn%d()\n", id)
 			case "ifdirect":
 				return "if true {\n" + body + "}\n"
+			case "elsedirect":
+				// the same statement stands in both branches; only the else branch runs
+				return "if 2 < 1 {\n" + body + "} else {\n" + body + "}\n"
 			case "fordirect":
 				return fmt.Sprintf("for it%d := 0; it%d < %d; it%d++ {\n%s}\n", id, id, loopN, id, body)
 			}
@@ -704,14 +751,14 @@ func (h *c17Hist) render(seed uint64) []*c17Segment {
 			default:
 				stmt = fmt.Sprintf("uu%d, uv%d := 1, %s", id, id, call)
 			}
-			return fmt.Sprintf("func fn%d(%s) string {\n%sreturn \"r\"\n}\n%s\n", id, strings.Join(ps, ", "), body, stmt)
+			return mark(fmt.Sprintf("func fn%d(%s) string {\n%sreturn \"r\"\n}\n", id, strings.Join(ps, ", "), body)) + stmt + "\n"
 		case "funcparam":
 			ps, as := []string{}, []string{}
 			for _, p := range params {
 				ps = append(ps, p[0]+" "+"string")
 				as = append(as, p[1])
 			}
-			return fmt.Sprintf("func fn%d(%s) {\n%s}\nfn%d(%s)\n", id, strings.Join(ps, ", "), body, id, strings.Join(as, ", "))
+			return mark(fmt.Sprintf("func fn%d(%s) {\n%s}\n", id, strings.Join(ps, ", "), body)) + fmt.Sprintf("fn%d(%s)\n", id, strings.Join(as, ", "))
 		case "funcglobal":
 			var g strings.Builder
 			for _, p := range params {
@@ -778,6 +825,11 @@ func (h *c17Hist) render(seed uint64) []*c17Segment {
 					cond = "1 < 2"
 				}
 				call = fmt.Sprintf("fl%d := %s\nwrite(%s, %s, fl%d)\n", id, cond, pn, cn, id)
+				if rng.Chance(40) {
+					// the flag is the result of a function that is called in this position only
+					pre.WriteString(fmt.Sprintf("\x01func fk%d() bool {\nreturn %s\n}\n\x02", id, cond))
+					call = fmt.Sprintf("write(%s, %s, fk%d())\n", pn, cn, id)
+				}
 				isAppend = op.Flag
 			}
 			sb.WriteString(pre.String())
@@ -798,6 +850,8 @@ func (h *c17Hist) render(seed uint64) []*c17Segment {
 					fmt.Fprintf(&sb, "fl%d := %s\nshw(%s, %s, fl%d)\n", id, cond, pe, ce, id)
 				}
 			} else {
+				selfContained := func(o string) bool { return o == "literal" || o == "call" || o == "" }
+				hoistOK = selfContained(op.POrigin) && selfContained(op.COrigin) && op.Kind != "appendVar"
 				loopN = 1
 				if op.Count > 1 && (op.Render == "for" || op.Render == "fordirect") && op.COrigin != "readof" {
 					loopN = op.Count // (an inline read(q) as content would change from iteration to iteration)
@@ -806,6 +860,7 @@ func (h *c17Hist) render(seed uint64) []*c17Segment {
 					}
 				}
 				sb.WriteString(wrap(op.Render, id, call, [][2]string{{pn, pe}, {cn, ce}}))
+				hoistOK = false
 			}
 			if isAppend {
 				m.Files[op.Path] = m.Files[op.Path] + strings.Repeat(op.Content+"\n", loopN)
@@ -1022,6 +1077,8 @@ func c17Run(r *Run, h *c17Hist, seed uint64, st *c17Stats) (string, string, erro
 }
 
 // heredocRe finds the delimiter words of here-documents in an emitted script.
+var hoistRe = regexp.MustCompile("(?s)\x01(.*?)\x02")
+
 var heredocRe = regexp.MustCompile("<<-?[ \\t]*\\\\?['\"]?([A-Za-z_][A-Za-z0-9_]*)")
 
 // harvestDelims returns the here-document delimiters the script uses (the harness' own
